@@ -118,6 +118,14 @@ func scenarios() []scenario {
 		dump.File{Name: "y.yang", Text: `module y { ` + H("y") + ` typedef t { type int32; } identity b; grouping g { leaf gy { type t; } } container cy; }`},
 		dump.File{Name: "m.yang", Text: `module m { ` + H("m") + ` import x { prefix p; } include s1; typedef tm { type p:t; } identity im { base p:b; } leaf lm { type tm; } leaf lm2 { type p:t; } container um { uses p:g; } augment /p:cx { leaf am { type p:t; } } leaf rm { type identityref { base p:b; } } }`},
 		dump.File{Name: "s1.yang", Text: `submodule s1 { belongs-to m { prefix m; } import y { prefix p; } typedef ts { type p:t; } identity is { base p:b; } leaf ls { type ts; } leaf ls2 { type p:t; } container us { uses p:g; } augment /p:cy { leaf as { type p:t; } } leaf rs { type identityref { base p:b; } } }`})
+	// several typedefs derived from one typedef whose accumulated pattern list has spare capacity
+	// (3 and 5 patterns), each adding a pattern: resolved in dictionary order
+	add("typedefs-narrowing-a-shared-pattern-list", nil,
+		dump.File{Name: "pt.yang", Text: `module pt { ` + H("pt") + ` typedef b3 { type string { pattern "a.*"; pattern ".*b"; pattern "[a-z]*"; } } typedef b5 { type b3 { pattern ".c.*"; pattern ".*d."; } }
+ typedef lower { type b3 { pattern "[a-m]*"; } } typedef upper { type b3 { pattern "[n-z]*"; } } typedef mid { type b3 { pattern "[g-s]*"; } }
+ typedef l5 { type b5 { pattern "x*"; } } typedef u5 { type b5 { pattern "y*"; } }
+ leaf ll { type lower; } leaf lu { type upper; } leaf lm { type mid; } leaf l5l { type l5; } leaf l5u { type u5; } leaf plain { type b3; } }`},
+		dump.File{Name: "pu.yang", Text: `module pu { ` + H("pu") + ` import pt { prefix pt; } typedef other { type pt:b3 { pattern "[0-9]*"; } } leaf lo { type other; } leaf lb { type pt:b5; } }`})
 	// a module whose revision statements are listed oldest first, next to the older revision itself
 	add("revision-list-oldest-first", nil,
 		dump.File{Name: "x-old.yang", Text: `module x { ` + H("x") + ` revision 2019-01-01; typedef t { type string { length "1..8"; } } leaf l { type t; default old; } }`},
